@@ -136,6 +136,26 @@ func c12(tier string) {
 				prof.Violation = append(prof.Violation, name)
 			}
 		}
+		// validations whose `message` key carries no text (absent, null, a list, a map): a result still has a message
+		for vi := range prof.Validations {
+			switch r.Intn(12) {
+			case 0:
+				prof.Validations[vi].Message = ""
+			case 1:
+				prof.Validations[vi].MessageRaw = lib.RawScalar("null")
+			case 2:
+				prof.Validations[vi].MessageRaw = lib.RawScalar("~")
+			case 3:
+				prof.Validations[vi].MessageRaw = lib.StrSeq("a", "b")
+			case 4:
+				prof.Validations[vi].MessageRaw = lib.NewYMap().Set("text", lib.Str("x"))
+			case 5:
+				prof.Validations[vi].MessageRaw = lib.Int(404)
+			default:
+				continue
+			}
+			ctx.Count("validations_without_message_text", 1)
+		}
 		dtext := g.CanonicalJSONLD()
 		if kind == 3 {
 			dtext = lib.DecorateWithSourceMaps(g, r).Text
